@@ -337,7 +337,7 @@ class Gen:
         r = self.r
         obs = [("index_valid",), ("iter",)]
         k = r.choice(["ooo_batch", "carriers", "bad_batch", "stale_handle", "torn_update", "handle_times", "linebreaks", "zones",
-                      "remove_first", "ooo_then_remove", "nested_not", "reset_then_time", "nan_fields", "epoch", "sparse_write", "sparse_write", "future_untimed", "getter_memo", "handle_sorted", "odd_strings", "shared_maps", "hash_twins", "same_count", "redate", "fold_twins", "big_ties", "handle_unset", "same_row_twice"])
+                      "remove_first", "ooo_then_remove", "nested_not", "reset_then_time", "nan_fields", "epoch", "sparse_write", "sparse_write", "future_untimed", "range_ends", "getter_memo", "handle_sorted", "odd_strings", "shared_maps", "hash_twins", "same_count", "redate", "fold_twins", "big_ties", "handle_unset", "same_row_twice"])
         pref = self.profile.get("scenario_pref")
         if pref and r.random() < 0.5:
             k = r.choice(pref)
@@ -701,6 +701,16 @@ class Gen:
             p2["time"] = p3["time"] = p5["time"] = None
             ops += [("insert", [self.point()], None), ("insert", [p1], None), ("index_valid",), ("insert", [p2], None), ("index_valid",), ("iter",),
                     ("insert", [p3], r.choice([None, "m1"])), ("insert", [p4], None), ("insert", [p5], None), ("get_timestamps", None)]
+        elif k == "range_ends":
+            # points in the first hours of year 1 and in the last hours of year 9999 (valid instants at the ends of the datetime range; the
+            # process may be in any zone), then points in between, in time order: getters, time tests and the validity of the index
+            lo = -62135596800 * SEC + r.choice([2, 5, 13]) * 3600 * SEC
+            hi = 253402300795 * SEC - r.choice([3, 7, 12]) * 3600 * SEC        # (whole seconds divisible by 5: the harness hands these instants in as UTC datetimes)
+            pts = [self.point(lo), self.point(lo + 40 * SEC), self.point(T0), self.point(T0 + SEC)] + ([self.point(hi)] if r.random() < 0.6 else [])
+            ops += [("insert", pts[:2], None, "multiple"), ("index_valid",), ("get_timestamps", None), ("count", ("S", "time", [], ("user", 4)), None),
+                    ("insert", pts[2:], None, "multiple"), ("index_valid",), ("get_timestamps", None), ("get_timestamps", "m1"),
+                    ("count", ("S", "time", [], ("cmp", "<", ("t", T0))), None), ("search", ("S", "time", [], ("user", 4)), None, True),
+                    ("insert", [self.point(hi + 3600 * SEC + 5 * SEC)] if len(pts) == 5 else [self.point(T0 + 2 * SEC)], None), ("index_valid",), ("len",)]
         elif k == "shared_maps":
             # a batch of points built from ONE tags mapping and ONE fields mapping (the harness hands equal mappings of a batch over as one
             # object): updates of a subset, of all, unsets, and an update that fails part-way must treat every point as having its own
